@@ -3068,6 +3068,8 @@ class RoAffine:
         for arg in args:
             if not isinstance(arg, RandVal):
                 raise TypeError('Unsupported type for defining random variable values.')
+            if arg.rvar.model is not self.rand_model:
+                raise ValueError('Models mismatch.')
 
             index = arg.index
             rvec[index] = arg.values.ravel()
@@ -3733,6 +3735,8 @@ class DecVar(Vars):
             else:
                 return outputs[0]
         else:
+            if rvar.model is not dro_model.sup_model:
+                raise ValueError('Models mismatch.')
             outputs = []
             drule_list = dro_model.rule_var()
             if isinstance(drule_list[0], Affine):
@@ -5030,6 +5034,8 @@ class DecRoAffine(RoAffine):
         for arg in args:
             if not isinstance(arg, RandVal):
                 raise TypeError('Unsupported type for defining random variable values.')
+            if arg.rvar.model is not self.rand_model:
+                raise ValueError('Models mismatch.')
 
             index = arg.index
             # rvec[index] = arg.values.ravel()
@@ -5431,6 +5437,8 @@ class DecRule:
         else:
             if rvar.model.mtype != 'S':
                 raise ValueError('The input is not a random variable.')
+            if rvar.model is not self.model.sup_model:
+                raise ValueError('Models mismatch.')
             ldr_row, ldr_col = self.size, self.model.rc_model.vars[-1].last
             ldr_coeff = np.array([[np.nan] * ldr_col] * ldr_row)
             rand_ind = rvar.get_ind()
